@@ -13,7 +13,13 @@ from typing import Any
 from vlib import core, gen, otelgen, puml
 
 PROP = "C14"
-WF_NAMES = ["wfA", "wf B", "wfC", "wf-D", "rev [a]", "rev a", "wf [v2]", "w(f)"]
+WF_NAMES = ["wfA", "wf B", "wfC", "wf-D", "rev [a]", "rev a", "wf [v2]", "w(f)", "orders.v1",
+            "orders.v2"]
+# a custom mapping whose user names collide with OTHER canonical field names (a chain of
+# aliases): still one distinct name per field, so saving and loading with it must round-trip
+CUSTOM_ALIAS = {"jobId": "job_id_x", "eventId": "event id", "timestamp": "ts",
+                "previousEventIds": "prev", "applicationName": "eventType",
+                "jobName": "workflow", "eventType": "jobName"}
 CUSTOM = {"jobId": "job_id_x", "eventId": "event id", "timestamp": "ts", "previousEventIds": "prev",
           "applicationName": "app", "jobName": "job-name", "eventType": "type"}
 
@@ -153,7 +159,8 @@ def run_routes(case: dict) -> dict:
                              seq_cfg, case["per_line"])
         otelgen.write_config(cfg_b, os.path.join(wd, "in"), case["db_b"].format(wd=wd), bs, 0,
                              seq_cfg, case["per_line"])
-        mapping = CUSTOM if case["custom_mapping"] else None
+        mapping = (CUSTOM_ALIAS if case.get("alias_mapping") else CUSTOM) \
+            if case["custom_mapping"] else None
         mc = []
         if mapping:
             with open(os.path.join(wd, "map.yaml"), "w") as fh:
@@ -256,6 +263,16 @@ def run_routes(case: dict) -> dict:
             pb = os.path.join(wd, "outB2", fname + ".puml")
             a_ok = ra["rc"] == 0 and os.path.exists(pa)
             b_ok = r2["rc"] == 0 and os.path.exists(pb)
+            silent = [r for r, rc, pth in (("otel2puml", ra["rc"], pa), ("pv2puml", r2["rc"], pb))
+                      if rc == 0 and not os.path.exists(pth)]
+            if silent:
+                # a route that reports success owes one diagram per workflow it was given
+                out["violations"].append({
+                    "symptom": "route-exits-0-without-the-workflow's-diagram:" + "+".join(silent),
+                    "detail": {"workflow": wfn, "expected_file": fname + ".puml",
+                               "files_a": sorted(os.listdir(os.path.join(wd, "outA")))
+                               if os.path.isdir(os.path.join(wd, "outA")) else None}})
+                continue
             if a_ok != b_ok and not (ra["rc"] != 0 and not os.path.exists(pa)
                                      and _a_died_before(wfn, ra["out"])):
                 out["violations"].append({
@@ -389,7 +406,11 @@ def workload(tier: str, seed: int) -> tuple[list[dict], dict]:
         is_async = i % 2 == 0
         custom = (i // 2) % 2 == 0
         wfs = []
-        for name in rng.sample(WF_NAMES, rng.randint(2, 3)):
+        names = rng.sample(WF_NAMES, rng.randint(2, 3))
+        if i % 4 == 1:
+            # workflow names that differ only behind a dot
+            names = ["orders.v1", "orders.v2"] + [x for x in names if not x.startswith("orders")][:1]
+        for name in names:
             d = _defs(rng, sync_only=not is_async)
             if d is None:
                 continue
@@ -397,7 +418,8 @@ def workload(tier: str, seed: int) -> tuple[list[dict], dict]:
         file_db = rng.random() < 0.5
         per_line = rng.random() < 0.3
         cases.append({"rng_seed": f"{seed}-{i}", "workflows": wfs, "async": is_async,
-                      "custom_mapping": custom, "per_line": per_line,
+                      "custom_mapping": custom, "alias_mapping": custom and (i // 4) % 2 == 1,
+                      "per_line": per_line,
                       "db_a": "sqlite:///{wd}/a.db" if file_db else "sqlite:///:memory:",
                       "db_b": "sqlite:///{wd}/b.db" if file_db else "sqlite:///:memory:",
                       "batch_size": rng.choice([1, 2, 5, 1000]), "work_dir": wd,
